@@ -70,3 +70,31 @@ pub fn k_tagiter_clone_history() {
     }
     kani::cover!(k == 2);
 }
+
+// ---- C03: the provided Iterator methods (nth / skip / count / last) must agree with
+// repeated next(): an override added to the impl is checked against the same walk.
+#[kani::proof]
+#[kani::unwind(6)]
+pub fn k_tagiter_provided_methods() {
+    let buf = AlignedBytes(kani::any::<[u8; 40]>());
+    let b = &buf.0;
+    let s0 = u32::from_le_bytes([b[4], b[5], b[6], b[7]]) as usize;
+    kani::assume(s0 >= 8 && s0 <= 16);
+    let o1 = (s0 + 7) / 8 * 8;
+    let s1 = u32::from_le_bytes([b[o1 + 4], b[o1 + 5], b[o1 + 6], b[o1 + 7]]) as usize;
+    kani::assume(s1 >= 8 && o1 + (s1 + 7) / 8 * 8 <= 32);
+    let o2 = o1 + (s1 + 7) / 8 * 8;
+    let s2 = u32::from_le_bytes([b[o2 + 4], b[o2 + 5], b[o2 + 6], b[o2 + 7]]) as usize;
+    kani::assume(s2 >= 8 && o2 + (s2 + 7) / 8 * 8 == 40);
+    let base = b.as_ptr() as usize;
+
+    let n: usize = kani::any();
+    kani::assume(n <= 3);
+    let got = TagIter::<KIterHdr>::new(&b[..]).nth(n).map(addr);
+    let want = if n == 0 { Some(base) } else if n == 1 { Some(base + o1) } else if n == 2 { Some(base + o2) } else { None };
+    assert!(got == want);
+    assert!(TagIter::<KIterHdr>::new(&b[..]).skip(1).next().map(addr) == Some(base + o1));
+    assert!(TagIter::<KIterHdr>::new(&b[..]).count() == 3);
+    assert!(TagIter::<KIterHdr>::new(&b[..]).last().map(addr) == Some(base + o2));
+    kani::cover!(s0 == 12 && n == 1);
+}
